@@ -196,7 +196,7 @@ func ruleR9() *Rule {
 				c.check(guardOK, "guard-1-to-0", c.pos(site), "the release routine runs exactly when the decremented count is 0 (truth table {0: release, 1: keep, 2: keep})",
 					"the call of "+rname+" is not dominated by a guard on the decremented Segment.refs with that truth table: "+guardDesc, "call: "+describeInstr(p, site))
 				// under the mutex
-				lockHeld := heldAt(dec, site, "Segment.m")
+				lockHeld := heldAtOrAtCallers(p, dec, site, "Segment.m", 0)
 				c.check(lockHeld, "release-under-mutex", c.pos(site), "the release routine is called with Segment.m held", "Segment.m is not held on every path to the call")
 			}
 
@@ -369,6 +369,31 @@ func callerNames(cs []ssa.CallInstruction) string {
 }
 
 // heldAt: on every path to `at` in fn, mutex mu ("Struct.field") is held for writing.
+// heldAtOrAtCallers: the mutex is held at `at` in fn, or fn is an unexported
+// helper (`decRefLocked`) every call of which happens with the mutex held.
+func heldAtOrAtCallers(p *Program, fn *ssa.Function, at ssa.Instruction, mu string, depth int) bool {
+	if heldAt(fn, at, mu) {
+		return true
+	}
+	if depth >= 2 || fn.Parent() != nil || fn.Object() == nil || fn.Object().Exported() {
+		return false
+	}
+	n := 0
+	for _, cs := range p.callersOf(fn) {
+		if par := cs.Parent(); par.Synthetic != "" && len(p.callersOf(par)) == 0 {
+			continue
+		}
+		if _, isGo := cs.(*ssa.Go); isGo {
+			return false
+		}
+		n++
+		if !heldAtOrAtCallers(p, cs.Parent(), cs, mu, depth+1) {
+			return false
+		}
+	}
+	return n > 0
+}
+
 func heldAt(fn *ssa.Function, at ssa.Instruction, mu string) bool {
 	tr := func(in ssa.Instruction, ev uint64, deferred bool) []uint64 {
 		cs, ok := in.(ssa.CallInstruction)
